@@ -75,7 +75,7 @@ class APIError(Exception):
     ) -> None:
         if isinstance(payload, str):
             super().__init__(payload)
-        elif payload:
+        elif isinstance(payload, dict) and payload:
             super().__init__(payload.get('message'), payload)
         else:
             super().__init__()
